@@ -950,6 +950,11 @@ class Evaluator:
             while len(args) < len(sig) and sig[len(args)] in kd:
                 args.append(kd.pop(sig[len(args)]))
             named = sorted(kd.items(), key=lambda kv: kv[0])
+        if f == ("builtin", "slice") and "slice" not in self.env and not named and not spreads and 1 <= len(args) <= 3 \
+                and not any(a[0] == "star" for a in args):
+            # slice(a, b[, c]) is the subscript a:b[:c]
+            a3 = [NONE, args[0], NONE] if len(args) == 1 else list(args) + [NONE] * (3 - len(args))
+            return ("slice", a3[0], a3[1], a3[2])
         t = ("call", f, tuple(args), tuple(named + spreads))
         inl = self._try_inline(f, t, live, n)
         if inl is not None:
